@@ -88,6 +88,10 @@ func VerifC07Op() {
 		args = []*Bitmap{a, b, c}
 	case 3: // a single member
 		args = []*Bitmap{a}
+	case 4: // one member and an empty one
+		args = []*Bitmap{a, NewBitmap()}
+	case 5:
+		args = []*Bitmap{NewBitmap(), a, NewBitmap()}
 	}
 	keep := append([]*Bitmap(nil), args...)
 	var r *Bitmap
